@@ -25,7 +25,7 @@ CHECKS = {
              "Non-trivial = the history writes through a view of depth >= 2 whose chain has a step > 1, or makes a bulk write to a non-contiguous target; distinct = distinct history (hash of the operation list)",
         assumptions=["C-backed int/uint arrays hold 32-bit C ints: generated values stay in the common range"],
         quick=dict(stages=[st(4000, timeout=600)]),
-        thorough=dict(stages=[st(250000, shards=16, timeout=3000)]),
+        thorough=dict(stages=[st(0, fuzz="FuzzSliceWriteHistories", fuzztime="60s", timeout=600), st(250000, shards=16, timeout=3000)]),
     ),
     "C02": dict(
         require={'V:non-contiguous': 0.03, 'mixed-contiguity': 0.02, '__nontrivial__': 0.2},
@@ -35,7 +35,7 @@ CHECKS = {
              "plus the integer helpers (Offsets, IDivMod, Increment, Product, Multiply, Argmax, Maximum) on random vectors. Non-trivial = the view is non-contiguous, stepped or reshaped, or the binary operation has mixed contiguity, or a helper case of rank >= 2; distinct = distinct case",
         assumptions=[],
         quick=dict(stages=[st(6000, timeout=600)]),
-        thorough=dict(stages=[st(200000, shards=16, timeout=3000)]),
+        thorough=dict(stages=[st(0, fuzz="FuzzIndexHelpers", fuzztime="60s", timeout=600), st(0, fuzz="FuzzViewOperations", fuzztime="60s", timeout=600), st(200000, shards=16, timeout=3000)]),
     ),
     "C03": dict(
         require={'initStates-copy-back': 0.01, '__nontrivial__': 0.2},
@@ -49,7 +49,7 @@ CHECKS = {
         quick=dict(stages=[st(2500, timeout=600),
                            st(400, pkg="libow", overlay=dict(map_main={"libopenwater": "libow"}), run="TestEntryPointInProcess", timeout=600),
                            st(150, pkg="libow", overlay=dict(map_main={"libopenwater": "libow"}), run="TestEntryPointThroughCABI", timeout=600)]),
-        thorough=dict(stages=[st(150000, shards=10, timeout=3000),
+        thorough=dict(stages=[st(0, fuzz="FuzzLockStepGoVsC", fuzztime="60s", timeout=600), st(150000, shards=10, timeout=3000),
                               st(40000, shards=3, pkg="libow", overlay=dict(map_main={"libopenwater": "libow"}), run="TestEntryPointInProcess", timeout=3000),
                               st(30000, shards=3, pkg="libow", overlay=dict(map_main={"libopenwater": "libow"}), run="TestEntryPointThroughCABI", timeout=3000)]),
     ),
@@ -61,7 +61,7 @@ CHECKS = {
              "Non-trivial = N>=2 and (P<N or B<N or table lengths differ between cells); distinct = (model,N,P,B,T,layout,parameters)",
         assumptions=["kernels are exercised inside their documented/physical parameter domain (simref.DrawCell); outside it some kernels panic in the cell goroutine"],
         quick=dict(stages=[st(2500, timeout=900)]),
-        thorough=dict(stages=[st(25000, shards=16, timeout=3500)]),
+        thorough=dict(stages=[st(0, fuzz="FuzzVectorisedRun", fuzztime="60s", timeout=600), st(25000, shards=16, timeout=3500)]),
     ),
     "C06": dict(
         require={'multiple-splits': 0.1, '__nontrivial__': 0.2},
@@ -70,7 +70,7 @@ CHECKS = {
              "(numerically equal up to 1e-9 relative round-off; StorageRouting within 50x its solver mass-balance tolerance). Non-trivial = >=1 split and the state changed before it; distinct = distinct case",
         assumptions=["StorageRouting tolerance: |dS| <= 50*1e-3 m^3, |dQ| <= 50*1e-3/DeltaT (the index flow carried inside one call only seeds the solver)"],
         quick=dict(stages=[st(3000, timeout=900)]),
-        thorough=dict(stages=[st(40000, shards=16, timeout=3500)]),
+        thorough=dict(stages=[st(25000, shards=16, timeout=3500)]),
     ),
     "C14": dict(
         require={'causality-interior-cut-stateful': 0.05, 'history>=3-runs-2-models': 0.1},
@@ -90,7 +90,7 @@ CHECKS = {
         assumptions=["Surm smax >= 10 mm (below that its ET term 10*S/smax is not bounded by the store); Sacramento capacities >= 5 mm; GR4J budget only for x2 <= 0",
                      "tolerance 1e-9*(1+sum of magnitudes entering the identity)"],
         quick=dict(stages=[st(4000, timeout=900)]),
-        thorough=dict(stages=[st(40000, shards=16, timeout=3500)]),
+        thorough=dict(stages=[st(25000, shards=16, timeout=3500)]),
     ),
     "C15": dict(
         require={'__nontrivial__': 0.1},
@@ -109,7 +109,7 @@ CHECKS = {
              "Non-trivial = StorageRouting run entering >= 2 exit paths / Muskingum with lateral > 0 / Lag with lag > (segment) length; distinct = distinct case",
         assumptions=["net evaporation is taken exactly as the model defines it (unit of area undocumented)", "Muskingum remainder uses the textbook coefficients computed in the check"],
         quick=dict(stages=[st(4000, timeout=900)]),
-        thorough=dict(stages=[st(120000, shards=16, timeout=3500)]),
+        thorough=dict(stages=[st(0, fuzz="FuzzStorageRouting", fuzztime="60s", timeout=600), st(120000, shards=16, timeout=3500)]),
     ),
     "C12": dict(
         require={'InstreamFineSediment:deposition': 0.005, 'InstreamFineSediment:remobilisation': 0.005, 'LumpedConstituentRouting:flush': 0.02, '__nontrivial__': 0.2},
@@ -120,7 +120,7 @@ CHECKS = {
         assumptions=["forcing values below 1e-6 of the series scale are snapped to zero (a reach volume of 1e-300 m^3 overflows concentration = mass/volume; not data)",
                      "StorageTrapAll has no timestep parameter: its budget is taken in the units it reports"],
         quick=dict(stages=[st(4000, timeout=900)]),
-        thorough=dict(stages=[st(60000, shards=16, timeout=3500)]),
+        thorough=dict(stages=[st(0, fuzz="FuzzMassConserved", fuzztime="60s", timeout=600), st(60000, shards=16, timeout=3500)]),
     ),
     "C13": dict(
         require={'spill': 0.03, 'below-10%': 0.1, 'rain/evaporation-on-water': 0.2},
@@ -141,7 +141,7 @@ CHECKS = {
              "Non-trivial = the series has both a zero and a non-zero driver step; distinct = distinct case",
         assumptions=["outside its rating table RatingCurvePartition panics in the cell goroutine (C18 covers the error contract of the interpolation); inputs are generated inside the table"],
         quick=dict(stages=[st(5000, timeout=900)]),
-        thorough=dict(stages=[st(120000, shards=16, timeout=3500)]),
+        thorough=dict(stages=[st(0, fuzz="FuzzIdentities", fuzztime="60s", timeout=600), st(120000, shards=16, timeout=3500)]),
     ),
     "C18": dict(
         require={'budget-suffices': 0.03, 'query:between-knots': 0.05},
@@ -150,7 +150,7 @@ CHECKS = {
              "Piecewise: strictly increasing tables of 2..12 knots (also as stepped views), queries at knots, between, just outside, far outside, NaN, +-Inf: error exactly outside/NaN, knots within 4 ulp, interpolant within 1e-12 and between the neighbouring values. Non-trivial = root search of >= 3 iterations or non-monotone function / query strictly between knots; distinct = distinct case",
         assumptions=["classes where a bracket end is already within the tolerance, or the iteration limit is 0, only assert: point inside, value = f(point), evaluations inside"],
         quick=dict(stages=[st(10000, timeout=900)]),
-        thorough=dict(stages=[st(220000, shards=16, timeout=3500)]),
+        thorough=dict(stages=[st(0, fuzz="FuzzPiecewise", fuzztime="60s", timeout=600), st(0, fuzz="FuzzFindRoot", fuzztime="60s", timeout=600), st(220000, shards=16, timeout=3500)]),
     ),
     "C20": dict(
         require={'pair-straddles-freezing': 0.05, 'humidity-extreme': 0.2},
@@ -159,7 +159,7 @@ CHECKS = {
              "oracle: outputs finite, vapour pressure > 0 and strictly increasing for T2-T1 >= 1e-6 (non-decreasing for closer pairs), dew point <= wet bulb <= dry bulb, deltaT == dry - wet, dew point non-decreasing in humidity. Non-trivial = a pair straddling freezing or humidity >= 99 or <= 1; distinct = distinct case",
         assumptions=[],
         quick=dict(stages=[st(3000, timeout=900)]),
-        thorough=dict(stages=[st(250000, shards=16, timeout=3500)]),
+        thorough=dict(stages=[st(0, fuzz="FuzzClimateOrdering", fuzztime="60s", timeout=600), st(250000, shards=16, timeout=3500)]),
     ),
     "C17": dict(
         require={'missing-parameter-and-input': 0.005, 'nested-encoding': 0.05},
@@ -171,7 +171,7 @@ CHECKS = {
         assumptions=["the request is the first JSON value of the input stream (bytes after it are ignored by the streaming decoder; not flagged)",
                      "supplied States are ignored by the runner (documented TODO in the code): the direct run uses the model's own initial states"],
         quick=dict(stages=[st(1500, run="TestJsonSafeArray|TestRunnerInProcess", timeout=900), st(800, run="TestRunnerChildProcess", timeout=900)]),
-        thorough=dict(stages=[st(80000, shards=8, run="TestJsonSafeArray|TestRunnerInProcess", timeout=3500), st(30000, shards=8, run="TestRunnerChildProcess", timeout=3500)]),
+        thorough=dict(stages=[st(0, fuzz="FuzzJsonSafeArray", fuzztime="60s", timeout=600), st(80000, shards=8, run="TestJsonSafeArray|TestRunnerInProcess", timeout=3500), st(30000, shards=8, run="TestRunnerChildProcess", timeout=3500)]),
     ),
     "C09": dict(
         pkg="c09", level="translation_validation",
@@ -194,7 +194,7 @@ CHECKS = {
                      "empty selections and compress=true (refused by libhdf5 on a contiguous layout) are a separate class that must only leave everything else intact",
                      "Create ignoring its fillValue and WriteSlice swallowing the library's error are not flagged"],
         quick=dict(stages=[st(2000, run="TestRoundTripHistories|TestSelectionHelpersExhaustive|TestStandInSelfCheck", timeout=900), st(300, run="TestConcurrentCallers", timeout=900)]),
-        thorough=dict(stages=[st(70000, shards=12, run="TestRoundTripHistories|TestSelectionHelpersExhaustive|TestStandInSelfCheck", timeout=3500), st(8000, shards=4, race=True, run="TestConcurrentCallers", timeout=3500)]),
+        thorough=dict(stages=[st(0, fuzz="FuzzRoundTripHistories", fuzztime="60s", timeout=600), st(70000, shards=12, run="TestRoundTripHistories|TestSelectionHelpersExhaustive|TestStandInSelfCheck", timeout=3500), st(8000, shards=4, race=True, run="TestConcurrentCallers", timeout=3500)]),
     ),
     "C07": dict(
         require={'several-links-into-one-input': 0.03, 'empty-batch': 0.1, '__nontrivial__': 0.15},
